@@ -324,4 +324,234 @@ theorem c13_stale_fence_witness :
       fenceView [] (fun h => if h = hs then false else db h) hs = false := by  -- after the commit: not fenced
   exact ⟨fun _ => true, 3, by decide, by decide⟩
 
+
+
+/-- **stale_fence (finding as a theorem about the model)**: with the view the code uses, a
+    batch `[cleanup hs, normal hs]` on a fenced hash slot answers the second command
+    `fenced`, while one at a time it is not fenced. -/
+theorem c13_stale_fence_in_model :
+    ∃ (db : Nat → Mig) (cs : List FCmd),
+      (runBatchF viewCode db cs).1 ≠ (seqF viewCode db cs).1 ∧ cleanupThenSameSlot cs = true := by
+  refine ⟨fun hs => if hs = 3 then some true else none, [⟨.cleanup, 3⟩, ⟨.normal, 3⟩], ?_, by decide⟩
+  decide
+
+theorem runBatchF_eq (view : (Nat → Mig) → FBatch → Nat → Mig) (db : Nat → Mig) (cs : List FCmd) :
+    runBatchF view db cs = ((foldF view db {} [] cs).2, commitF db (foldF view db {} [] cs).1) := rfl
+
+theorem foldF_cons (view : (Nat → Mig) → FBatch → Nat → Mig) (db : Nat → Mig) (b : FBatch) (fl : List Bool)
+    (c : FCmd) (cs : List FCmd) :
+    foldF view db b fl (c :: cs) = foldF view db (fstepB view db b c).1 (fl ++ [(fstepB view db b c).2]) cs := rfl
+
+theorem foldF_flags (view : (Nat → Mig) → FBatch → Nat → Mig) (db : Nat → Mig) (b : FBatch) (fl : List Bool)
+    (cs : List FCmd) :
+    (foldF view db b fl cs).2 = fl ++ (foldF view db b [] cs).2 ∧ (foldF view db b fl cs).1 = (foldF view db b [] cs).1 := by
+  induction cs generalizing b fl with
+  | nil => simp [foldF]
+  | cons c cs ih =>
+    rw [foldF_cons, foldF_cons]
+    have h1 := ih (fstepB view db b c).1 (fl ++ [(fstepB view db b c).2])
+    have h2 := ih (fstepB view db b c).1 ([] ++ [(fstepB view db b c).2])
+    rw [h1.1, h1.2, h2.1, h2.2]
+    simp
+
+/-- a step only looks at the view of its own hash slot -/
+theorem fstepB_congr (v1 v2 : (Nat → Mig) → FBatch → Nat → Mig) (db : Nat → Mig) (b : FBatch) (c : FCmd)
+    (h : v1 db b c.hs = v2 db b c.hs) : fstepB v1 db b c = fstepB v2 db b c := by
+  unfold fstepB
+  cases c.kind <;> simp only [h]
+
+theorem view_after_step (db : Nat → Mig) (b : FBatch) (c : FCmd) (hs : Nat)
+    (hv : viewCode db b c.hs = viewTrue db b c.hs)
+    (hkeep : viewCode db b hs = viewTrue db b hs)
+    (hok : ¬ (c.kind = .cleanup ∧ hs = c.hs)) :
+    viewCode db (fstepB viewTrue db b c).1 hs = viewTrue db (fstepB viewTrue db b c).1 hs := by
+  unfold fstepB
+  cases hk : c.kind with
+  | normal => simpa using hkeep
+  | fence =>
+    simp only
+    cases hvt : viewTrue db b c.hs with
+    | none =>
+      by_cases hh : hs = c.hs
+      · simp [viewCode, viewTrue, upd, hh]
+      · simpa [viewCode, viewTrue, upd, hh] using hkeep
+    | some f =>
+      cases f with
+      | true => simpa using hkeep
+      | false =>
+        by_cases hh : hs = c.hs
+        · simp [viewCode, viewTrue, upd, hh]
+        · simpa [viewCode, viewTrue, upd, hh] using hkeep
+  | ack =>
+    simp only
+    cases hvt : viewTrue db b c.hs with
+    | none => simpa using hkeep
+    | some f =>
+      by_cases hh : hs = c.hs
+      · simp [viewCode, viewTrue, upd, hh]
+      · simpa [viewCode, viewTrue, upd, hh] using hkeep
+  | cleanup =>
+    simp only
+    cases hvt : viewTrue db b c.hs with
+    | none => simpa using hkeep
+    | some f =>
+      have hh : hs ≠ c.hs := fun e => hok ⟨hk, e⟩
+      simpa [viewCode, viewTrue, upd, hh] using hkeep
+
+/-- under the exception-free hypothesis the code's view and the read-your-writes view drive
+    the batch loop identically -/
+theorem foldF_code_eq_true (db : Nat → Mig) (b : FBatch) (fl : List Bool) (cs : List FCmd)
+    (hinv : ∀ hs, (∃ d ∈ cs, d.hs = hs) → viewCode db b hs = viewTrue db b hs)
+    (hex : cleanupThenSameSlot cs = false) :
+    foldF viewCode db b fl cs = foldF viewTrue db b fl cs := by
+  induction cs generalizing b fl with
+  | nil => rfl
+  | cons c cs ih =>
+    rw [foldF_cons, foldF_cons]
+    have hc := hinv c.hs ⟨c, List.mem_cons_self .., rfl⟩
+    rw [fstepB_congr viewCode viewTrue db b c hc]
+    simp only [cleanupThenSameSlot, Bool.or_eq_false_iff, Bool.and_eq_false_iff] at hex
+    apply ih
+    · intro hs ⟨d, hd, hdh⟩
+      apply view_after_step db b c hs hc (hinv hs ⟨d, List.mem_cons_of_mem _ hd, hdh⟩)
+      rintro ⟨hk, hh⟩
+      rcases hex.1 with h1 | h1
+      · simp [hk] at h1
+      · have : (cs.any fun d => d.hs == c.hs) = true := by
+          simp only [List.any_eq_true, beq_iff_eq]
+          exact ⟨d, hd, by rw [hdh, hh]⟩
+        rw [this] at h1; cases h1
+    · exact hex.2
+
+/-- the read-your-writes loop from a batch state = the same loop from its committed image -/
+theorem fstepB_true_commit (db : Nat → Mig) (b : FBatch) (c : FCmd) :
+    (fstepB viewTrue db b c).2 = (fstepB viewTrue (commitF db b) {} c).2 ∧
+    commitF db (fstepB viewTrue db b c).1 = commitF (commitF db b) (fstepB viewTrue (commitF db b) {} c).1 := by
+  have hv : viewTrue (commitF db b) {} c.hs = viewTrue db b c.hs := by simp [viewTrue, commitF]
+  unfold fstepB
+  rw [hv]
+  cases c.kind with
+  | normal => exact ⟨rfl, by funext hs; simp [commitF, viewTrue]⟩
+  | fence =>
+    cases hvt : viewTrue db b c.hs with
+    | none => exact ⟨rfl, by funext hs; by_cases hh : hs = c.hs <;> simp [commitF, viewTrue, upd, hh]⟩
+    | some f =>
+      cases f with
+      | true => exact ⟨rfl, by funext hs; simp [commitF, viewTrue]⟩
+      | false => exact ⟨rfl, by funext hs; by_cases hh : hs = c.hs <;> simp [commitF, viewTrue, upd, hh]⟩
+  | ack =>
+    cases hvt : viewTrue db b c.hs with
+    | none => exact ⟨rfl, by funext hs; simp [commitF, viewTrue]⟩
+    | some f => exact ⟨rfl, by funext hs; by_cases hh : hs = c.hs <;> simp [commitF, viewTrue, upd, hh]⟩
+  | cleanup =>
+    cases hvt : viewTrue db b c.hs with
+    | none => exact ⟨rfl, by funext hs; simp [commitF, viewTrue]⟩
+    | some f => exact ⟨rfl, by funext hs; by_cases hh : hs = c.hs <;> simp [commitF, viewTrue, upd, hh]⟩
+
+theorem commitF_empty (db : Nat → Mig) : commitF db {} = db := by
+  funext hs; simp [commitF, viewTrue]
+
+/-- with a read-your-writes view a batch IS the one-at-a-time run (flags and committed rows) -/
+theorem true_view_transparent (db : Nat → Mig) (b : FBatch) (cs : List FCmd) :
+    (foldF viewTrue db b [] cs).2 = (seqF viewTrue (commitF db b) cs).1 ∧
+    commitF db (foldF viewTrue db b [] cs).1 = (seqF viewTrue (commitF db b) cs).2 := by
+  induction cs generalizing b with
+  | nil => exact ⟨rfl, rfl⟩
+  | cons c cs ih =>
+    rw [foldF_cons]
+    have hf := foldF_flags viewTrue db (fstepB viewTrue db b c).1 ([] ++ [(fstepB viewTrue db b c).2]) cs
+    have hstep := fstepB_true_commit db b c
+    have ih' := ih (fstepB viewTrue db b c).1
+    simp only [seqF, runBatchF_eq, foldF_cons]
+    have hnil : foldF viewTrue (commitF db b) (fstepB viewTrue (commitF db b) {} c).1
+        ([] ++ [(fstepB viewTrue (commitF db b) {} c).2]) [] =
+        ((fstepB viewTrue (commitF db b) {} c).1, [(fstepB viewTrue (commitF db b) {} c).2]) := rfl
+    rw [hnil]
+    simp only
+    rw [hf.1, hf.2, ih'.1, ih'.2, hstep.1, ← hstep.2]
+    exact ⟨by simp, rfl⟩
+
+theorem seqF_code_eq_true (db : Nat → Mig) (cs : List FCmd) : seqF viewCode db cs = seqF viewTrue db cs := by
+  induction cs generalizing db with
+  | nil => rfl
+  | cons c cs ih =>
+    have h1 : runBatchF viewCode db [c] = runBatchF viewTrue db [c] := by
+      rw [runBatchF_eq, runBatchF_eq, foldF_code_eq_true db {} [] [c]
+        (fun hs _ => by simp [viewCode, viewTrue]) (by simp [cleanupThenSameSlot])]
+    simp only [seqF, h1, ih]
+
+/-- **fence overlay transparent under the explicit exception**: a batch in which no
+    CleanupMigrationOutbox is followed by another command of the same hash slot answers
+    every command (fenced or not) and commits the migration rows exactly as the
+    one-at-a-time run does — with the view the code uses. -/
+theorem c13_fence_overlay_transparent (db : Nat → Mig) (cs : List FCmd)
+    (hex : cleanupThenSameSlot cs = false) :
+    runBatchF viewCode db cs = seqF viewCode db cs := by
+  rw [seqF_code_eq_true, runBatchF_eq,
+    foldF_code_eq_true db {} [] cs (fun hs _ => by simp [viewCode, viewTrue]) hex]
+  have := true_view_transparent db {} cs
+  rw [commitF_empty] at this
+  exact Prod.ext this.1 this.2
+
+example : cleanupThenSameSlot [⟨.fence, 3⟩, ⟨.normal, 3⟩, ⟨.cleanup, 3⟩, ⟨.normal, 2⟩] = false := by decide
+
+/-- with a read-your-writes overlay (record the deletion instead of erasing the pending
+    entry) there is no exception at all: the repair candidate -/
+theorem c13_fence_overlay_repaired (db : Nat → Mig) (cs : List FCmd) :
+    runBatchF viewTrue db cs = seqF viewTrue db cs := by
+  rw [runBatchF_eq]
+  have := true_view_transparent db {} cs
+  rw [commitF_empty] at this
+  exact Prod.ext this.1 this.2
+
+section Refused
+variable {κ : Type} (cfg : Cfg) (d : Bytes → Except Err Nat) (one : One κ)
+
+theorem seqSkip_eq_seqRun (st : St κ) (cs : List Cmd) (h : (seqRun cfg d one st cs).2.2 = none) :
+    seqSkip cfg d one st cs = (seqRun cfg d one st cs).1 := by
+  induction cs generalizing st with
+  | nil => rfl
+  | cons c cs ih =>
+    cases hs : stepOne cfg d one st c with
+    | error e => rw [seqRun_cons_err cfg d one st c cs e hs] at h; cases h
+    | ok p =>
+      obtain ⟨st', r⟩ := p
+      rw [seqRun_cons_ok cfg d one st st' c cs r hs] at h ⊢
+      simp only [seqSkip, hs]
+      exact ih st' h
+
+/-- **partition transparency with refused commands**: a batch is either applied exactly like
+    the one-at-a-time run (no command refused), or refused as a whole with NOTHING written
+    and then, resumed one at a time, reaches exactly the state of the one-at-a-time run that
+    skips the refused commands.  Either way the state does not depend on the batching.
+    (The only exception is the fence overlay, `c13_stale_fence_in_model`.) -/
+theorem c13_refused_batch_resume (st : St κ) (cs : List Cmd) (hpos : ∀ c ∈ cs, c.index > st.applied) :
+    runBatchResume cfg d one st cs = seqSkip cfg d one st cs := by
+  have hpos0 : ∀ c ∈ cs, c.index > 0 := fun c hc => by have := hpos c hc; omega
+  unfold runBatchResume
+  cases hst : stage cfg d one st.kv cs with
+  | error e =>
+    rw [applyBatch_refused cfg d one st cs e hst]
+    simp only
+    have : replayTail st.applied cs = cs := by
+      unfold replayTail
+      exact List.filter_eq_self.2 (fun c hc => by simpa using hpos c hc)
+    rw [this]
+  | ok p =>
+    obtain ⟨kv, rs, flag⟩ := p
+    have hok := ((stage_seq cfg d one st cs).2 kv rs flag hst).1
+    rw [applyBatch_eq_seq cfg d one st cs hpos0 hok]
+    have : seqRun cfg d one st cs = ((seqRun cfg d one st cs).1, (seqRun cfg d one st cs).2.1, none) := by
+      rw [← hok]
+    rw [this]
+    simp only
+    exact (seqSkip_eq_seqRun cfg d one st cs hok).symm
+
+end Refused
+
+example : (runBatchResume demoCfg demoD demoOne ⟨[], 0⟩
+    [⟨1, 1, 1, [1, 1, 7]⟩, ⟨1, 4, 2, [1, 19]⟩, ⟨1, 1, 3, [1, 1, 8]⟩]).kv = [[8], [7]] := by decide
+
+
+
 end WK.C13
